@@ -1,4 +1,4 @@
-"""Reproduce the defects F1-F5, F7, F10-F13 of DESIGN.md s7 against the pyins in VERIF_REPO (default /repo).
+"""Reproduce the defects F1-F5, F7, F10-F14 of DESIGN.md s7 against the pyins in VERIF_REPO (default /repo).
 Prints one line per defect: `F<k> PRESENT|ABSENT <detail>`.  Not a registered check; used to
 document the fix commits and as a regression aid."""
 import os, sys, signal
@@ -131,9 +131,21 @@ def f13():
     bad = abs(c.VD) > 1e-9 or abs(c.roll - 1.0) > 1e-9 or abs(c.VN - 1.0) > 1e-9
     return bad, f"correct_pva(permuted labels, x=0): VD = {float(c.VD):.3g}, roll = {float(c.roll):.3g}, VN = {float(c.VN):.3g} (expected 0, 1, 1)"
 
+def f14():
+    from pyins import error_model, measurements
+    import pandas as pd
+    em = error_model.InsErrorModel(True)
+    p0 = pva0(); p0[['VN', 'VE', 'VD', 'roll', 'pitch', 'heading']] = [3.0, -2.0, 1.0, 0.0, 0.0, 0.0]
+    p = pd.concat([p0,
+                   pd.Series([0.0, 0.0, 2.0], index=['rate_x', 'rate_y', 'rate_z'])]); p.name = 1.0
+    data = pd.DataFrame([[3.0, -2.0, 1.0]], index=[1.0], columns=['VN', 'VE', 'VD'])
+    z, H, R = measurements.NedVelocity(data, 1.0, np.array([2.0, 0.0, 0.0])).compute_matrices(1.0, p, em)
+    want = np.array([[0, -1, 2], [1, 0, -3], [-2, 3, 0]], float)      # skew(v + C (rate x lever)) = skew((3, 2, 1))
+    return not np.allclose(H[:, 6:9], want, atol=1e-12), f"attitude block of H = {np.round(H[:, 6:9], 6).tolist()} (dz/dphi = {want.tolist()})"
+
 
 if __name__ == "__main__":
-    which = sys.argv[1:] or ["F1", "F2", "F2b", "F3", "F3b", "F4", "F5", "F7", "F10", "F11", "F12", "F13"]
-    table = dict(F1=f1, F2=f2, F2b=f2b, F3=f3, F3b=f3b, F4=f4, F5=f5, F7=f7, F10=f10, F11=f11, F12=f12, F13=f13)
+    which = sys.argv[1:] or ["F1", "F2", "F2b", "F3", "F3b", "F4", "F5", "F7", "F10", "F11", "F12", "F13", "F14"]
+    table = dict(F1=f1, F2=f2, F2b=f2b, F3=f3, F3b=f3b, F4=f4, F5=f5, F7=f7, F10=f10, F11=f11, F12=f12, F13=f13, F14=f14)
     for w in which:
         run(w, table[w])
